@@ -776,18 +776,31 @@ def deep_tail(ctx, hcmd, dcmd):
     from concurrent.futures import ThreadPoolExecutor
     rng, q = ctx.rng, ctx.quick
     jobs0 = []
-    for i in range(90 if q else 1200):
-        if i % 3 != 2:
-            wl = rng.choice(WLS)
-            rm = rng.choice(RMS)
-            req = rng.choice([3, 4, 4, 5, 8])      # (a ring of 2 slots accepts nothing)
+    # stratified: every writer lock x reader mode, one and two writers, every number of messages left
+    # pending (0..room) when the exploration starts; plus array-blocking-queue histories
+    plans = []
+    for rep in range(1 if q else 12):
+        for wl in WLS:
+            for rm in RMS:
+                for W in ((1,) if wl == "single" else (1, 2)):
+                    for lag in (0, 1, 2, 3):
+                        plans.append(("chan", wl, rm, W, lag))
+    for i in range(30 if q else 400):
+        plans.append(("abq",))
+    for plan in plans:
+        if plan[0] == "chan":
+            _, wl, rm, W, lag = plan
+            # (a ring of 2 slots accepts nothing; one of 4 holds 2 messages, so more than one message can
+            # only be pending at a successful write in a ring of 8)
+            req = rng.choice([5, 8]) if lag >= 2 or rng.random() < 0.4 else rng.choice([3, 4])
             cap = pow2(req)
-            W = 1 if wl == "single" else rng.choice([1, 2, 2])
-            tot = rng.randrange(cap + 1, 4 * cap + 2)
+            tot = rng.randrange(cap + 1, 3 * cap + 2)
             ns = [tot // W + (1 if w < tot % W else 0) for w in range(W)]
             run = chan_run(wl, rm, req, 0, tot, ns, "")
             room = max(1, cap - 2)
-            nthr, reader, wr, rd = W + 1, [W], list(ns), [tot]
+            wr, rd = list(ns), [tot]
+            tails_w = [rng.choice([1, 1, 2]) if n > 1 else n for n in wr]
+            tails_r = [min(tot, sum(tails_w) + min(lag, room))]
         else:
             cap = rng.choice([1, 2, 2, 3, 4])
             P, C = rng.choice([1, 2]), rng.choice([1, 2])
@@ -797,11 +810,13 @@ def deep_tail(ctx, hcmd, dcmd):
             run = abq_run(cap, ns, ks, "")
             room = cap
             wr, rd = list(ns), list(ks)
+            tails_w = [rng.choice([1, 1, 2]) if n > 1 else n for n in wr]
+            tails_r = [min(n, rng.choice([1, 1, 2, 3])) for n in rd]
         # operation order: never more than `room` messages in flight, never a read on empty; the last
         # operation (sometimes two) of every thread is left to the exploration
         P_ = len(wr)
-        left_w = [max(0, n - rng.choice([1, 1, 2])) for n in wr]
-        left_r = [max(0, n - rng.choice([1, 1, 2])) for n in rd]
+        left_w = [n - t for n, t in zip(wr, tails_w)]
+        left_r = [n - t for n, t in zip(rd, tails_r)]
         order, fly = [], 0
         while True:
             cw = [w for w in range(P_) if left_w[w] > 0] if fly < room else []
@@ -871,6 +886,9 @@ def main(ctx):
         ctx.broken.append("harness-build: " + str(e)[:500])
         return
     q = ctx.quick
+    # (the directed family first: the random families escalate into a long search when only the trace tie
+    # breaks, and that search is skipped once a concrete failing input is known)
+    deep_tail(ctx, hcmd, dcmd)
     runs = load_corpus()
     ctx.cov["ties"]["corpus_runs"] = len(runs)
     runs += gen_chan(ctx, 8 if q else 60)
@@ -881,7 +899,6 @@ def main(ctx):
     fine_runs(ctx, hcmd, gen_abq(ctx, 150 if q else 1500, fine=True) + gen_dbuf(ctx, 150 if q else 1500, fine=True),
               "lock_coverage")
     systematic(ctx, hcmd, dcmd, small_confs(ctx), "tieC_systematic")
-    deep_tail(ctx, hcmd, dcmd)
 
 
 def replay(ctx, path):
